@@ -13,7 +13,7 @@ LEVEL = "exploration"
 BUDGET = {"quick": 800, "thorough": 70000}
 TECHNIQUE = "property-based testing: structure against the generator's mesh, per-level per-box metamorphic data oracles, poison differential"
 RULE = ("As C07 (nested 3D plotfiles with analytic fields A / K / T / R, constructed positions, 3 normals, level limits, "
-        "field lists) plus ~15% inputs whose written slice exceeds the 1 MB file-splitting threshold (64x64 footprint, "
+        "field lists in any order, a quarter with 'grid_level' at a drawn position) plus ~15% inputs whose written slice exceeds the 1 MB file-splitting threshold (64x64 footprint, "
         "33-200 fields i.e. 2-7 binary files, 4-40 boxes per level). Output read by the independent reader: taste accepts (incl. coordinates); "
         "time, in-plane bounds, cell sizes, level count; per level the multiset of footprints of exactly the boxes whose "
         "closed normal extent contains p; per box and field the level's own stored samples interpolated linearly "
@@ -39,15 +39,18 @@ def cases(draw, tier="quick"):
         mode = draw(st.sampled_from(["names", "names", "all"]))
         k = draw(st.lists(st.integers(0, nf - 1), min_size=1, max_size=4, unique=True))
     limit = draw(st.one_of(st.none(), st.integers(0, nlev - 1)))
-    return dict(spec=spec, pos=draw(slicegen.positions(nlev)), mode=mode, fields=k, limit=limit, big=big,
+    # 'grid_level' somewhere in the requested list (the 2D plotfile carries the other variables, in the requested order)
+    gl = draw(st.integers(0, len(k))) if mode == "names" and draw(st.integers(0, 2 ** 16)) % 4 == 0 else None
+    return dict(spec=spec, pos=draw(slicegen.positions(nlev)), mode=mode, fields=k, limit=limit, big=big, gl=gl,
                 serial=draw(st.booleans()), cli=draw(st.sampled_from([False, False, False, True])),
-                sched=dict(exec=[draw(st.lists(st.integers(0, 7), max_size=6)) for _ in range(nlev)]))
+                sched=dict(exec=[draw(st.lists(st.integers(0, 7), max_size=6)) for _ in range(nlev)],
+                           comp=[draw(st.lists(st.integers(0, 7), max_size=6)) for _ in range(nlev)]))
 
 
 def compact(case):
     return dict(mesh=case["spec"]["mesh"], geom=case["spec"]["geom"], nfields=len(case["spec"]["fields"]),
                 payload=case["spec"]["payload"], pos=case["pos"], mode=case["mode"], fields=case["fields"],
-                limit=case["limit"], big=case["big"])
+                limit=case["limit"], big=case["big"], gl=case.get("gl"))
 
 
 def check_case(case, ctx):
@@ -72,6 +75,9 @@ def check_case(case, ctx):
     names = plot.fields
     req = ["all"] if case["mode"] == "all" else [names[i] for i in case["fields"]]
     out_names = list(names) if case["mode"] == "all" else list(req)
+    if case.get("gl") is not None and case["mode"] != "all":
+        req = req[:case["gl"]] + ["grid_level"] + req[case["gl"]:]
+        ctx.label("grid_level-in-the-list")
     ctx.label(*labs, "pos:" + pcls, f"normal:{cn}", "big" if case["big"] else "small", "cli" if case.get("cli") else "api")
     lo_n = plot.geo_lo[cn]
     kk0 = (p - lo_n) / plot.dx[0][cn] - 0.5
@@ -108,8 +114,18 @@ def check_case(case, ctx):
     if o["ndims"] != 2:
         v.append(f"output is {o['ndims']}D")
         return v
+    if "grid_level" in req and "grid_level" in o["fields"]:
+        # a tool that stores the level index as a component of its own is not contradicted by the statement: drop it
+        keep = [i for i, f in enumerate(o["fields"]) if f != "grid_level"]
+        for oo in (o, o1):
+            oo["fields"] = [oo["fields"][i] for i in keep]
+            for lev in oo["levels"]:
+                lev["data"] = [d[..., keep] for d in lev["data"]]
+                if lev["mins"] is not None:
+                    lev["mins"] = [[r[i] for i in keep] for r in lev["mins"]]
+                    lev["maxs"] = [[r[i] for i in keep] for r in lev["maxs"]]
     if o["fields"] != out_names:
-        v.append(f"fields {o['fields'][:6]} != requested {out_names[:6]}")
+        v.append(f"fields {o['fields'][:6]} != requested {out_names[:6]} (request {req[:7]})")
         return v
     if o["time"] != plot.time:
         v.append(f"time {o['time']!r} != input {plot.time!r}")
